@@ -67,7 +67,7 @@ struct jw_ghost {
 	/* descriptor / revoke block being filled */
 	unsigned long long desc_slot;	/* logical journal block reserved for it */
 	unsigned long long ntags;	/* tags (= data blocks written) / revoke records in it so far */
-	unsigned long next_off;		/* byte offset at which the format's walk expects the next tag */
+	unsigned short next_off;	/* byte offset at which the format's walk expects the next tag (16 bits: keeps the verifier's index comparisons narrow) */
 	unsigned int sealed;		/* 1 between checksum-set and the write of the block */
 	unsigned char seal_k;		/* byte g_kd at the moment the block checksum was set (after storing it) */
 	unsigned char desc_wit;		/* byte g_kd of the block, recorded when the tag covering it was completed */
@@ -88,7 +88,7 @@ unsigned int g_tb;		/* jw_tag_bytes */
 unsigned int g_usable;		/* bytes of a descriptor/revoke block before the checksum tail */
 unsigned int g_csum_on, g_v3, g_64;
 unsigned int g_tid;
-unsigned long g_k, g_kd;
+unsigned short g_k, g_kd;
 unsigned int g_ku;
 unsigned long long g_rr;
 unsigned int g_rsz;		/* revoke record size */
